@@ -307,3 +307,12 @@ func MapPairs[M ~map[K]V, K comparable, V any](m M) []Pair[K, V] {
 	}
 	return out
 }
+
+// SelectStart returns the case a determinised select polls first (recorded on
+// the tape inside a run, 0 outside).
+func SelectStart(n int) int {
+	if r := sim.Active(); r != nil && n > 1 {
+		return r.Intn(n)
+	}
+	return 0
+}
